@@ -105,6 +105,20 @@ func runC05(c *ShardCtx) {
 			runGrammar(c, g, fam)
 		}
 	}
+	// cross family (cross.go): every body with a #{} block next to every other construct, under
+	// every flag set; every block tries to change all three stores
+	if !runCross(c, &idx, &crossSpec{maxSize: 3, gens: gens16, inputs: crossInputsSmall, opts: opts,
+		keep: func(body *peg.Expr) bool {
+			st := false
+			body.Walk(func(e *peg.Expr) { st = st || e.K == peg.KState })
+			return st
+		},
+		scripts: func(g *peg.Grammar) []map[int]*rtapi.Block {
+			out := []map[int]*rtapi.Block{mkScript(g, false), mkScript(g, true)}
+			return out
+		}, nontrivial: nontriv, cmp: core.CmpOpts{EventKey: stateKey, SkipNoMatch: true}}) {
+		return
+	}
 	for size := 1; size <= n; size++ {
 		for _, body := range en.Size(size) {
 			if !(&peg.Grammar{Rules: []*peg.Rule{{Name: "S", Expr: body}}}).Has(peg.KState) {
